@@ -150,9 +150,7 @@ package remote
 // DANE: without a DNSSEC-capable resolver or without TLSA records the policy has no opinion; any other discovery
 // failure defers delivery (temporary error) instead of letting the connection through; otherwise verifyDANE decides
 // (C13), and only its positive verdict raises the TLS level to authenticated.
-//@ uninterp func notFoundErr(e error) bool
-//@ extern func fdns.IsNotFound(err error) bool
-//@   ensures result == notFoundErr(err)
+// (notFoundErr / IsNotFound are specified in framework/dns)
 //@ func (*daneDelivery).CheckConn
 //@   prop C05 C13
 //@   requires c != nil && c.c != nil && !chainOK
@@ -172,9 +170,12 @@ package remote
 //@ ghost field mxConn.vetted int
 //@ ghost var gMXOk int
 //@ ghost var gConnOk int
+// gMXLast: the MX level established after the last accepted CheckMX (the larger of what the policy was shown and what it returned).
+//@ ghost var gMXLast module.MXLevel
 //@ extern func (module.DeliveryMXAuthPolicy).CheckMX(p module.DeliveryMXAuthPolicy, ctx context.Context, mxLevel module.MXLevel, domain string, mx string, dnssec bool) (lvl module.MXLevel, err error)
-//@   modifies gMXOk
+//@   modifies gMXOk, gMXLast
 //@   ensures gMXOk == old(gMXOk) + (err == nil ? 1 : 0)
+//@   ensures err == nil ==> gMXLast == (lvl > mxLevel ? lvl : mxLevel)
 //@ extern func (module.DeliveryMXAuthPolicy).CheckConn(p module.DeliveryMXAuthPolicy, ctx context.Context, mxLevel module.MXLevel, tlsLevel module.TLSLevel, domain string, mx string, tlsState tls.ConnectionState) (lvl module.TLSLevel, err error)
 //@   modifies gConnOk
 //@   ensures gConnOk == old(gConnOk) + (err == nil ? 1 : 0)
@@ -193,16 +194,21 @@ package remote
 //@ import prometheus "github.com/prometheus/client_golang/prometheus"
 //@ func (*remoteDelivery).attemptMX
 //@   prop C05
-//@   modifies gMXOk, gConnOk, conn.mxLevel, conn.tlsLevel, *conn.C, conn.vetted, prometheus.CounterVec.MetricVec
+//@   modifies gMXOk, gMXLast, gConnOk, conn.mxLevel, conn.tlsLevel, *conn.C, conn.vetted, prometheus.CounterVec.MetricVec
 //@   ensures result == nil ==> conn.C.cl != nil && !conn.C.sockClosed
 //@   ensures result != nil ==> conn.C.cl == nil || conn.C.sockClosed || (conn.C.cl == old(conn.C.cl) && conn.C.sockClosed == old(conn.C.sockClosed) && conn.vetted == old(conn.vetted))
 //@   requires rd != nil && rd.rt != nil && conn != nil && conn.C != nil && record != nil
 //@   ensures result == nil ==> gMXOk == old(gMXOk) + old(len(rd.policies)) && gConnOk == old(gConnOk) + old(len(rd.policies))
 //@   trusted-ensures result == nil ==> conn.vetted == old(len(rd.policies))
 //@   assert-call (module.DeliveryMXAuthPolicy).CheckMX : $p == rd.policies[rangeindex + 1] && $mxLevel == mxLevel && $domain == conn.domain && $mx == record.Host && $dnssec == conn.dnssecOk
+// ... the first policy sees no established MX level (levels do not carry over from an earlier MX candidate tried on
+// the same connection object), and the first CheckConn sees the TLS level connect() reported.
+//@   assert-call (module.DeliveryMXAuthPolicy).CheckMX : (rangeindex + 1 == 0 ==> $mxLevel == module.MXNone) && (rangeindex + 1 > 0 ==> $mxLevel == gMXLast)
+//@   assert-call (module.DeliveryMXAuthPolicy).CheckConn : $mxLevel == (len(rd.policies) == 0 ? module.MXNone : gMXLast)
+//@   ensures result == nil ==> conn.mxLevel == (old(len(rd.policies)) == 0 ? module.MXNone : gMXLast)
 //@   assert-call (module.DeliveryMXAuthPolicy).CheckConn : $p == rd.policies[rangeindex + 1] && $mxLevel == mxLevel && $tlsLevel == tlsLevel && $domain == conn.domain && $mx == record.Host
-//@   loop 0 invariant gMXOk == old(gMXOk) + rangeindex + 1 && gConnOk == old(gConnOk) && rd.policies == old(rd.policies) && conn.domain == old(conn.domain) && conn.dnssecOk == old(conn.dnssecOk) && record.Host == old(record.Host)
-//@   loop 1 invariant gMXOk == old(gMXOk) + len(rd.policies) && gConnOk == old(gConnOk) + rangeindex + 1 && rd.policies == old(rd.policies) && len(rd.policies) == old(len(rd.policies)) && conn.domain == old(conn.domain) && record.Host == old(record.Host)
+//@   loop 0 invariant (rangeindex + 1 == 0 ==> mxLevel == module.MXNone) && (rangeindex + 1 > 0 ==> mxLevel == gMXLast) && gMXOk == old(gMXOk) + rangeindex + 1 && gConnOk == old(gConnOk) && rd.policies == old(rd.policies) && conn.domain == old(conn.domain) && conn.dnssecOk == old(conn.dnssecOk) && record.Host == old(record.Host)
+//@   loop 1 invariant mxLevel == (len(rd.policies) == 0 ? module.MXNone : gMXLast) && gMXOk == old(gMXOk) + len(rd.policies) && gConnOk == old(gConnOk) + rangeindex + 1 && rd.policies == old(rd.policies) && len(rd.policies) == old(len(rd.policies)) && conn.domain == old(conn.domain) && record.Host == old(record.Host)
 //@ func (*Target).Name
 //@   prop C05
 //@ func (*mxConn).Close
@@ -288,9 +294,10 @@ package remote
 // connection that passed the target's FULL policy set may be returned (pool invariant): a delivery that ran with
 // fewer policies (TLS-Required: No override) closes its connections instead. The destination permit of every
 // connection is released.
+// Usable probes the connection (RSET); it changes nothing of the connection's bookkeeping - in particular not the
+// time of last use the pool's idle-lifetime test reads right afterwards.
 //@ func (*mxConn).Usable
-//@   prop C05
-//@   trusted
+//@   prop C05 C19
 //@   requires c != nil
 //@   modifies *c.C.cl
 //@ extern func (*remoteDelivery).Close#ReleaseDest$call(g *limits.Group, domain string)
